@@ -12,7 +12,7 @@ TRUSTED = ['Exec/RunBmm.v runner', 'stand-in optimizer recording skip signals fo
 
 
 def zl(l):
-    return '[' + '; '.join('%d%%Z' % x for x in l) + ']'
+    return '[' + '; '.join('(%d)%%Z' % x for x in l) + ']'
 
 
 def gen_batches(r, thorough):
